@@ -13,6 +13,8 @@
 mod c01;
 #[path = "c09.rs"]
 mod c09;
+#[path = "c13b.rs"]
+mod c13b;
 
 use std::cell::RefCell;
 
@@ -107,6 +109,65 @@ fn check_case(case: &c01::C01Case) -> Case {
         }
     };
     c01::check_with(case, Some(&post))
+}
+
+// ------------------------------------------------------------------ Interaction Model traffic
+
+/// The subscription scenarios of C13 (a device with up to three subscribers, reports, chunked
+/// priming reads, status responses, subscribe responses; confirmations and reports lost, delayed
+/// and duplicated): every datagram of one (sender, session, counter) decrypts to the same header
+/// and plaintext, and new messages of a session carry increasing counters.
+fn check_im(sc: &c13b::Scenario) -> Case {
+    let obs = match c13b::run_scenario(sc) {
+        Ok(o) => o,
+        Err(_) => return Case::inconclusive("the subscription scenario did not run to its end"),
+    };
+    use std::collections::BTreeMap;
+    let mut groups: BTreeMap<(u16, bool, u16, u32), (&vh::sim::node::Wire, usize)> = BTreeMap::new();
+    let mut streams: BTreeMap<(u16, bool, u16), u32> = BTreeMap::new();
+    let mut dev_retrans = 0usize;
+    for d in &obs.sent {
+        let key = (d.pair, d.from_dev, d.w.sess_id, d.w.ctr);
+        match groups.get_mut(&key) {
+            Some((first, n)) => {
+                *n += 1;
+                if d.from_dev && d.w.proto_id == 1 {
+                    dev_retrans += 1;
+                }
+                if **first != d.w {
+                    return Case::fail(
+                        "nonce:im-retransmission-differs",
+                        format!(
+                            "{} of pair {} sent two different messages under session {:#x} counter {:#x}: [exch {:#x} proto {:#x} op {:#x} I={} R={} ack={:?} {} octets] and [exch {:#x} proto {:#x} op {:#x} I={} R={} ack={:?} {} octets]",
+                            if d.from_dev { "the device" } else { "the subscriber" },
+                            d.pair, d.w.sess_id, d.w.ctr,
+                            first.exch_id, first.proto_id, first.opcode, first.initiator, first.reliable, first.ack, first.payload.len(),
+                            d.w.exch_id, d.w.proto_id, d.w.opcode, d.w.initiator, d.w.reliable, d.w.ack, d.w.payload.len(),
+                        ),
+                    );
+                }
+            }
+            None => {
+                groups.insert(key, (&d.w, 1));
+                let sk = (d.pair, d.from_dev, d.w.sess_id);
+                let last = streams.get(&sk).copied();
+                if let Some(last) = last {
+                    if d.w.ctr.saturating_add(256) <= last {
+                        return Case::fail(
+                            "nonce:im-counter-went-backwards",
+                            format!(
+                                "{} of pair {}, session {:#x}: a new message carries counter {:#x} although {:#x} was already used",
+                                if d.from_dev { "the device" } else { "the subscriber" },
+                                d.pair, d.w.sess_id, d.w.ctr, last
+                            ),
+                        );
+                    }
+                }
+                streams.insert(sk, last.map(|l| l.max(d.w.ctr)).unwrap_or(d.w.ctr));
+            }
+        }
+    }
+    Case::pass(dev_retrans > 0).label(if dev_retrans > 0 { "im-message-retransmitted" } else { "no-retransmission" })
 }
 
 // ------------------------------------------------------------------ exchange id allocator
@@ -369,15 +430,17 @@ fn main() {
     let mut run = Run::new(
         "C15",
         "exploration",
-        "wire-tap invariant over the scenarios of C09 (planted PASE/CASE/plaintext sessions, scripts of reliable messages under drop/duplicate/delay plans) and C01 (CASE handshakes, cold and resumed, under loss and message mutation): every group of datagrams with the same (sender, destination, session id, counter) is byte-identical and first transmissions carry strictly increasing counters per secure session; plus allocator histories in which the exchange-id / session-id allocator is positioned (hook) just before the id of a live exchange / session and must skip it. Non-trivial: at least one counter was transmitted more than once on a secure session (mrp), at least one retransmitted handshake message (case), the allocator actually passed the live id (ids); distinct = distinct serialized case",
+        "wire-tap invariant over the scenarios of C09 (planted PASE/CASE/plaintext sessions, scripts of reliable messages under drop/duplicate/delay plans) C01 (CASE handshakes, cold and resumed, under loss and message mutation, half of them with randomised signing) and C13 (a device reporting to up to three subscribers: priming reads, chunked reports, status and subscribe responses under loss, delay and duplication): every group of datagrams with the same (sender, destination, session id, counter) is byte-identical and first transmissions carry strictly increasing counters per secure session; plus allocator histories in which the exchange-id / session-id allocator is positioned (hook) just before the id of a live exchange / session and must skip it. Non-trivial: at least one counter was transmitted more than once on a secure session (mrp), at least one retransmitted handshake message (case), at least one retransmitted Interaction Model message of the device (im), the allocator actually passed the live id (ids); distinct = distinct serialized case",
     );
     run.assume("the tap records datagrams as the stacks sent them (before the adversary alters them)");
     run.assume("session ids are not reused within one scenario (16-bit allocator, at most a handful of sessions)");
-    run.assume("Interaction Model report/response retransmissions are exercised by the C13/C14 scenarios; this check covers secure-channel and application messages on planted sessions");
+    run.assume("Interaction Model messages are compared after decryption with the planted session keys (header fields and plaintext), which is what the nonce rule is about");
     let n = run.cases(30_000, 1_500_000);
     run.prop("mrp-nonce", n, c09::case_strategy, check_mrp);
     let n = run.cases(2_000, 100_000);
     run.prop("case-handshake-nonce", n, c01::case_strategy, check_case);
+    let n = run.cases(3_000, 60_000);
+    run.prop("im-traffic-nonce", n, || c13b::scenario(true, 3), check_im);
     let n = run.cases(3_000, 100_000);
     run.prop("exchange-id-allocator", n, exch_id_strategy, check_exch_ids);
     let n = run.cases(300, 10_000);
